@@ -55,6 +55,12 @@ pub struct Profile {
     pub depths: Vec<usize>,
     /// Pick the object size limit around actual object sizes (C38).
     pub size_limits: bool,
+    /// Run through the server's update cycle and keep a history (C22, C34).
+    pub via_server: bool,
+    /// Use hostile TAL labels (C22).
+    pub hostile_labels: bool,
+    /// Candidate (refresh, min-refresh) settings (C34).
+    pub refresh_swarm: bool,
     /// Chance (percent) that dubious hosts are allowed.
     pub allow_dubious_pct: u64,
 }
@@ -67,6 +73,7 @@ pub enum OpKind {
     CrlWrongKey, CrlGarbage, CrlNotListed, CrlMissing, CrlStale,
     Replay, NotNewer, RsyncFail, RrdpFail, AddChild, DropChild,
     CertFault, CertOverclaim, CycleCert, TaFault, RevokeChild, ExpireMftEe,
+    TalRekey, BigAspa, AspaChange,
 }
 
 impl Profile {
@@ -88,7 +95,7 @@ impl Profile {
                 (Replay, 4), (NotNewer, 3), (RsyncFail, 4), (RrdpFail, 4),
                 (AddChild, 3), (DropChild, 1), (CertFault, 2),
                 (CertOverclaim, 2), (CycleCert, 1), (TaFault, 2),
-                (RevokeChild, 1), (ExpireMftEe, 1),
+                (RevokeChild, 1), (ExpireMftEe, 1), (TalRekey, 1),
             ],
             ops_per_step: 3,
             random_cfg: true,
@@ -100,6 +107,9 @@ impl Profile {
             focus: None,
             depths: vec![32],
             size_limits: false,
+            via_server: false,
+            hostile_labels: false,
+            refresh_swarm: false,
             allow_dubious_pct: 0,
         }
     }
@@ -208,6 +218,12 @@ pub struct Sim {
     /// of creating one per run (like the one-shot commands do).
     pub reuse_engine: bool,
     pub engine: Option<Engine>,
+    /// Server-mode state.
+    pub server: Option<ServerState>,
+    pub tal_labels: BTreeMap<String, String>,
+    pub min_refresh: Option<i64>,
+    /// Number and thisUpdate of every stored manifest after the last run.
+    pub stored_seen: BTreeMap<String, (Vec<u8>, i64, Bytes)>,
     /// The step whose validation run is interrupted at every kill point.
     pub crash_step: Option<usize>,
     pub crash_thorough: bool,
@@ -311,6 +327,10 @@ impl Sim {
             exceptions_json: None,
             slurm: None,
             ta_files: BTreeMap::new(),
+            server: None,
+            tal_labels: BTreeMap::new(),
+            min_refresh: None,
+            stored_seen: BTreeMap::new(),
             reuse_engine: mix(&[seed, 9]) % 2 == 0,
             engine: None,
             crash_step: None,
@@ -318,6 +338,29 @@ impl Sim {
             crash_mask: BTreeSet::new(),
         };
         sim.stats.cas = n_cas;
+        if sim.profile.hostile_labels {
+            let mut lrng = rng.fork("labels");
+            let hostile = [
+                "quo\"te", "back\\slash", "tab\there", "new\nline",
+                "esc\u{1b}[31m", "uni\u{e4}\u{1f4a9}", "brace}{", "nul\u{0}x",
+                "plain-label",
+            ];
+            for tal in &sim.world.tals {
+                if lrng.chance(80, 100) {
+                    sim.tal_labels.insert(
+                        format!("{}.tal", tal.name),
+                        format!("{} {}", tal.name, lrng.pick(&hostile))
+                    );
+                }
+            }
+        }
+        if sim.profile.refresh_swarm {
+            let mut rrng = rng.fork("refresh");
+            sim.cfg.refresh = *rrng.pick(&[1, 10, 600, 86400]);
+            sim.min_refresh = *rrng.pick(
+                &[None, Some(1), Some(60), Some(600), Some(7200)]
+            );
+        }
         sim.write_tals();
         if sim.profile.slurm {
             let mut srng = rng.fork("slurm");
@@ -369,6 +412,9 @@ impl Sim {
         cfg.allow_dubious = rng.chance(profile.allow_dubious_pct, 100);
         if let Some(stale) = profile.stale { cfg.stale = stale }
         if let Some(pol) = profile.unsafe_vrps { cfg.unsafe_vrps = pol }
+        if profile.name == "C08" && rng.chance(50, 100) {
+            cfg.unsafe_vrps = Policy::Reject;
+        }
         cfg
     }
 
@@ -488,7 +534,9 @@ impl Sim {
 
         // Operations.
         let quiet = step > 0 && srng.chance(self.profile.quiet_pct, 100);
-        let n_ops = if quiet { 0 } else {
+        let n_ops = if quiet { 0 } else if step == 0 && self.profile.name == "C08" {
+            4 + srng.usize(6)
+        } else {
             1 + srng.usize(self.profile.ops_per_step)
         };
         for k in 0..n_ops {
@@ -533,9 +581,10 @@ impl Sim {
         let real = self.real_run(step);
         self.stats.steps += 1;
         match real {
-            Ok((snapshot, metrics_ok)) => {
-                let _ = metrics_ok;
+            Ok((snapshot, counts)) => {
                 self.check_run(step, &expect, &snapshot, &transport);
+                self.check_points(step, &expect, counts);
+                self.check_history_clients(step);
                 self.state = state;
                 self.check_store(step, &expect);
             }
@@ -931,6 +980,111 @@ impl Sim {
                     self.dirty.insert(ca);
                 }
             }
+            BigAspa => {
+                // Several ASPA objects for one customer whose provider
+                // union exceeds what fits into an RTR PDU.
+                let pool = gen::effective_pool(&self.world, ca);
+                match pool.asn.first().copied() {
+                    None => applied = false,
+                    Some((lo, _)) => {
+                        let customer = lo + rng.below(3) as u32;
+                        let (n, size) = *rng.pick(
+                            &[(3usize, 9000u32), (4, 8000), (2, 9000), (3, 5000)]
+                        );
+                        for j in 0..n {
+                            let serial = self.world.serial();
+                            let base = 1_000_000 + (j as u32) * 20_000;
+                            let providers: Vec<u32> = (0..size).map(|i| {
+                                base + i
+                            }).collect();
+                            let obj = crate::world::ObjSpec {
+                                name: format!("big{}-{}-{}.asa", step, k, j),
+                                payload: crate::world::Payload::Aspa {
+                                    customer, providers
+                                },
+                                serial,
+                                nb: now - 3600, na: now + 30 * DAY,
+                                ee_key: 24 + ((step * 5 + k + j) % 24),
+                                fault: None, salt: 0,
+                            };
+                            self.world.cas[ca].objs.push(obj);
+                        }
+                        detail = json!({"customer": customer, "objects": n,
+                            "providers_each": size});
+                        self.dirty.insert(ca);
+                    }
+                }
+            }
+            AspaChange => {
+                // Replace the provider set of an existing ASPA (or create
+                // one) choosing from a tiny family of sets so that sets
+                // change and change back.
+                let pool = gen::effective_pool(&self.world, ca);
+                match pool.asn.first().copied() {
+                    None => applied = false,
+                    Some((lo, _)) => {
+                        let sets: [&[u32]; 4] = [
+                            &[65001], &[65001, 65002], &[65003],
+                            &[65001, 65002, 65003]
+                        ];
+                        let providers = rng.pick(&sets).to_vec();
+                        let serial = self.world.serial();
+                        let spec = &mut self.world.cas[ca];
+                        let existing = spec.objs.iter().position(|o| {
+                            matches!(o.payload, crate::world::Payload::Aspa{..})
+                                && o.fault.is_none()
+                        });
+                        match existing {
+                            Some(idx) => {
+                                let obj = &mut spec.objs[idx];
+                                if let crate::world::Payload::Aspa {
+                                    providers: ref mut p, ..
+                                } = obj.payload {
+                                    *p = providers.clone();
+                                }
+                                obj.serial = serial;
+                                obj.nb = now - 3600;
+                                obj.na = now + 30 * DAY;
+                                detail = json!({"name": obj.name,
+                                    "providers": providers});
+                            }
+                            None => {
+                                let obj = crate::world::ObjSpec {
+                                    name: format!("chg{}-{}.asa", step, k),
+                                    payload: crate::world::Payload::Aspa {
+                                        customer: lo, providers: providers.clone()
+                                    },
+                                    serial,
+                                    nb: now - 3600, na: now + 30 * DAY,
+                                    ee_key: 24 + ((step + k) % 24),
+                                    fault: None, salt: 0,
+                                };
+                                detail = json!({"name": obj.name,
+                                    "providers": providers});
+                                spec.objs.push(obj);
+                            }
+                        }
+                        self.dirty.insert(ca);
+                    }
+                }
+            }
+            TalRekey => {
+                // The configured TAL now carries another key (a replaced
+                // TAL); the servers keep publishing the old certificate.
+                let t = rng.usize(self.world.tals.len());
+                let root = self.world.tals[t].ca;
+                let old = self.world.tals[t].key;
+                let new = if old == self.world.cas[root].key {
+                    (old + 13) % 24
+                } else {
+                    self.world.cas[root].key
+                };
+                self.world.tals[t].key = new;
+                self.write_tals();
+                // The engine reads TALs when created.
+                self.engine = None;
+                detail = json!({"tal": t, "matches_ta": new == self.world.cas[root].key});
+            }
             TaFault => {
                 let t = rng.usize(self.world.tals.len());
                 let fault = *rng.pick(&[
@@ -1268,12 +1422,19 @@ impl Sim {
         config.enable_aspa = self.cfg.aspa;
         config.dirty_repository = self.cfg.dirty;
         config.validation_threads = 1;
+        for (file, label) in &self.tal_labels {
+            config.tal_labels.insert(file.clone(), label.clone());
+        }
+        config.min_refresh = self.min_refresh.map(|secs| {
+            std::time::Duration::from_secs(secs as u64)
+        });
+        config.log_repository_issues = self.profile.hostile_labels;
         config
     }
 
     fn real_run(
         &mut self, _step: usize
-    ) -> Result<(PayloadSnapshot, routinator::metrics::Metrics), String> {
+    ) -> Result<(PayloadSnapshot, (u32, u32)), String> {
         let config = self.config(true);
         if self.engine.is_none() || !self.reuse_engine
             || self.crash_step.is_some()
@@ -1283,6 +1444,27 @@ impl Sim {
             })?);
         }
         let engine = self.engine.as_ref().unwrap();
+        if self.profile.via_server {
+            if self.server.is_none() {
+                self.server = Some(ServerState::new(&config));
+            }
+            let server = self.server.as_mut().unwrap();
+            let exceptions = LocalExceptions::load(&config, false).map_err(|_| {
+                "loading exceptions failed".to_string()
+            })?;
+            routinator::operation::Server::verif_process_once(
+                &config, engine, &server.history, &mut server.notify,
+                &exceptions, false
+            ).map_err(|err| {
+                format!("process failed (fatal={})", err.is_fatal())
+            })?;
+            let snapshot = server.history.read().current().unwrap();
+            server.runs += 1;
+            let counts = server.history.read().metrics().map(|m| {
+                (m.publication.valid_points, m.publication.rejected_points)
+            }).unwrap_or((0, 0));
+            return Ok(((*snapshot).clone(), counts))
+        }
         let (report, mut metrics) = ValidationReport::process(
             engine, &config, false
         ).map_err(|err| {
@@ -1292,8 +1474,137 @@ impl Sim {
             "loading exceptions failed".to_string()
         })?;
         let snapshot = report.into_snapshot(&exceptions, &mut metrics);
-        Ok((snapshot, metrics))
+        let counts = (
+            metrics.publication.valid_points,
+            metrics.publication.rejected_points
+        );
+        Ok((snapshot, counts))
     }
+}
+
+
+//------------ Server mode --------------------------------------------------
+
+pub struct HistVersion {
+    pub serial: u32,
+    pub data: BTreeMap<String, String>,
+    pub snapshot: Arc<PayloadSnapshot>,
+}
+
+pub struct ServerState {
+    pub versions: Vec<HistVersion>,
+    pub changes: usize,
+    pub history: routinator::payload::SharedHistory,
+    pub notify: rpki::rtr::server::NotifySender,
+    pub http: routinator::http::verif_api::State,
+    pub runs: u64,
+}
+
+impl ServerState {
+    fn new(config: &Config) -> Self {
+        let history = routinator::payload::SharedHistory::from_config(config);
+        let notify = rpki::rtr::server::NotifySender::new();
+        let http = routinator::http::verif_api::State::new(
+            config, history.clone(),
+            Arc::new(routinator::metrics::RtrServerMetrics::new(true)),
+            None, notify.clone()
+        );
+        ServerState {
+            versions: Vec::new(), changes: 0, history, notify, http, runs: 0
+        }
+    }
+
+    fn get(&self, uri: &str) -> (u16, Vec<u8>) {
+        use http_body_util::BodyExt;
+        let (parts, _) = http::Request::builder().uri(uri).method("GET")
+            .body(()).unwrap().into_parts();
+        let response = futures::executor::block_on(self.http.handle_request(
+            routinator::http::verif_api::Request::new(parts, None)
+        )).into_hyper().unwrap();
+        let status = response.status().as_u16();
+        let body = futures::executor::block_on(response.into_body().collect())
+            .unwrap().to_bytes().to_vec();
+        (status, body)
+    }
+}
+
+/// Checks a document against the Prometheus text exposition format.
+pub fn check_prometheus(text: &str) -> Result<usize, String> {
+    let mut samples = 0;
+    for (n, line) in text.split('\n').enumerate() {
+        if line.is_empty() || line.starts_with('#') {
+            continue
+        }
+        let bytes = line.as_bytes();
+        let mut i = 0;
+        // metric name
+        while i < bytes.len() && (bytes[i].is_ascii_alphanumeric()
+            || bytes[i] == b'_' || bytes[i] == b':')
+        { i += 1 }
+        if i == 0 {
+            return Err(format!("line {}: no metric name: {line:?}", n + 1))
+        }
+        if i < bytes.len() && bytes[i] == b'{' {
+            i += 1;
+            loop {
+                while i < bytes.len() && (bytes[i] == b' ' || bytes[i] == b',') {
+                    i += 1
+                }
+                if i < bytes.len() && bytes[i] == b'}' { i += 1; break }
+                let start = i;
+                while i < bytes.len() && (bytes[i].is_ascii_alphanumeric()
+                    || bytes[i] == b'_')
+                { i += 1 }
+                if i == start {
+                    return Err(format!(
+                        "line {}: bad label name at column {i}: {line:?}", n + 1
+                    ))
+                }
+                if i + 1 >= bytes.len() || bytes[i] != b'=' || bytes[i + 1] != b'"' {
+                    return Err(format!(
+                        "line {}: expected =\" at column {i}: {line:?}", n + 1
+                    ))
+                }
+                i += 2;
+                loop {
+                    if i >= bytes.len() {
+                        return Err(format!(
+                            "line {}: unterminated label value: {line:?}", n + 1
+                        ))
+                    }
+                    match bytes[i] {
+                        b'\\' => {
+                            if i + 1 >= bytes.len() || !matches!(
+                                bytes[i + 1], b'\\' | b'"' | b'n'
+                            ) {
+                                return Err(format!(
+                                    "line {}: bad escape in label value: \
+                                     {line:?}", n + 1
+                                ))
+                            }
+                            i += 2;
+                        }
+                        b'"' => { i += 1; break }
+                        _ => i += 1,
+                    }
+                }
+            }
+        }
+        if i >= bytes.len() || bytes[i] != b' ' {
+            return Err(format!(
+                "line {}: expected a space before the value: {line:?}", n + 1
+            ))
+        }
+        let rest = line[i + 1..].trim();
+        let value = rest.split(' ').next().unwrap_or("");
+        if value.parse::<f64>().is_err()
+            && !matches!(value, "NaN" | "+Inf" | "-Inf")
+        {
+            return Err(format!("line {}: bad value {value:?}: {line:?}", n + 1))
+        }
+        samples += 1;
+    }
+    Ok(samples)
 }
 
 
@@ -1391,6 +1702,17 @@ impl Sim {
                         abandoned.keys.insert(item.clone());
                     }
                 }
+                for (customer, providers) in &items.aspas {
+                    let strict_providers = strict.aspas.get(customer);
+                    for provider in providers {
+                        if !strict_providers.map(|s| s.contains(provider))
+                            .unwrap_or(false)
+                        {
+                            abandoned.aspas.entry(*customer).or_default()
+                                .insert(*provider);
+                        }
+                    }
+                }
                 if !items.is_empty() {
                     self.stats.probe("abandoned-with-payload");
                 }
@@ -1442,6 +1764,18 @@ impl Sim {
                 mixed.push(format!("key AS{}", item.1));
             }
         }
+        for (customer, providers) in &real.aspas {
+            if let Some(bad) = abandoned.aspas.get(customer) {
+                let leaked: Vec<&u32> = providers.iter().filter(|p| {
+                    bad.contains(*p)
+                }).collect();
+                if !leaked.is_empty() {
+                    mixed.push(format!(
+                        "aspa AS{customer} providers {leaked:?}"
+                    ));
+                }
+            }
+        }
         if !mixed.is_empty() {
             self.violation("C03", "mixed", step, format!(
                 "payload of an abandoned update served: {mixed:?}"
@@ -1489,6 +1823,19 @@ impl Sim {
         }
         if !rejected_v4.is_empty() || !rejected_v6.is_empty() {
             self.stats.probe("rejected-points");
+        }
+        for outer in &rejected_v4 {
+            for inner in &rejected_v4 {
+                if outer != inner && outer.covers(*inner) {
+                    self.stats.probe("nested-rejected-pair");
+                    if expect.loose.origins.iter().any(|(_, pfx, _)| {
+                        matches!(pfx, Pfx::V4(p) if outer.covers(*p)
+                            && p.first() > inner.last())
+                    }) {
+                        self.stats.probe("vrp-behind-nested-rejected");
+                    }
+                }
+            }
         }
         let overlaps = |pfx: &Pfx| match pfx {
             Pfx::V4(p) => rejected_v4.iter().any(|r| r.overlaps(*p)),
@@ -1544,6 +1891,8 @@ impl Sim {
             );
         }
 
+        self.check_server_documents(step, snapshot);
+
         // Signature of the case for distinctness accounting.
         let mut used = [0u32; 3];
         for outcome in &expect.outcomes {
@@ -1561,6 +1910,213 @@ impl Sim {
              {}/{}/{}",
             real.len(), used[0], used[1], used[2]
         ));
+    }
+
+    /// C07 (and C01): exactly the publication points the model expects
+    /// were processed, each once.
+    fn check_points(&mut self, step: usize, expect: &Expect, counts: (u32, u32)) {
+        let valid = expect.outcomes.iter().filter(|o| {
+            o.used != Used::Rejected
+        }).count() as u32;
+        let rejected = expect.outcomes.iter().filter(|o| {
+            o.used == Used::Rejected
+        }).count() as u32;
+        if counts != (valid, rejected) {
+            self.violation("C07", "point-count", step, format!(
+                "the run processed {} valid and {} rejected publication \
+                 points, the model expects {valid} and {rejected} (a \
+                 certificate that must contribute nothing was followed, or \
+                 a CA was skipped)", counts.0, counts.1
+            ));
+        }
+    }
+
+    /// C12/C13/C14 with ASPA payload: lagging clients against the history
+    /// kept by the server-mode runs.
+    fn check_history_clients(&mut self, step: usize) {
+        use rpki::rtr::payload::{Action, PayloadRef};
+        use rpki::rtr::server::{PayloadDiff, PayloadSet, PayloadSource};
+        use rpki::rtr::state::{Serial, State};
+        let Some(server) = self.server.as_mut() else { return };
+        fn entry(p: PayloadRef) -> (String, String) {
+            match p {
+                PayloadRef::Origin(o) => (format!(
+                    "o:AS{}:{}/{}-{}", o.asn.into_u32(), o.prefix.addr(),
+                    o.prefix.prefix_len(), o.prefix.resolved_max_len()
+                ), String::new()),
+                PayloadRef::RouterKey(k) => (format!(
+                    "k:AS{}:{}", k.asn.into_u32(), k.key_identifier
+                ), String::new()),
+                PayloadRef::Aspa(a) => (
+                    format!("a:AS{}", a.customer.into_u32()),
+                    format!("{:?}", a.providers.iter().map(|x| x.into_u32())
+                        .collect::<Vec<_>>())
+                ),
+            }
+        }
+        let mut problems: Vec<(&'static str, &'static str, String)> = Vec::new();
+        let (state, mut set) = server.history.full();
+        let mut data = BTreeMap::new();
+        while let Some(item) = set.next() {
+            let (k, v) = entry(item);
+            data.insert(k, v);
+        }
+        let serial_now = u32::from(state.serial());
+        let snapshot = server.history.read().current().unwrap();
+        let first = server.versions.is_empty();
+        let changed = server.versions.last().map(|v| v.data != data)
+            .unwrap_or(false);
+        if let Some(last) = server.versions.last() {
+            let want = last.serial.wrapping_add(changed as u32);
+            if serial_now != want {
+                problems.push(("C14", "serial", format!(
+                    "serial is {serial_now} after a run that {} the data \
+                     set (previous serial {})",
+                    if changed { "changed" } else { "did not change" },
+                    last.serial
+                )));
+            }
+        }
+        if changed { server.changes += 1; }
+        if first || changed {
+            server.versions.push(HistVersion {
+                serial: serial_now, data: data.clone(), snapshot: snapshot.clone()
+            });
+        }
+        let session = server.history.read().session() as u16;
+        let keep = 10usize;
+        let n_must = keep.min(server.changes) as u32;
+        for version in &server.versions {
+            let lag = serial_now.wrapping_sub(version.serial);
+            let res = server.history.diff(
+                State::from_parts(session, Serial(version.serial))
+            );
+            match res {
+                None => {
+                    if lag == 0 || lag < n_must {
+                        problems.push(("C13", "refused-retained", format!(
+                            "client at serial {} (current {serial_now}) refused",
+                            version.serial
+                        )));
+                    }
+                }
+                Some((state, mut diff)) => {
+                    let mut actions = Vec::new();
+                    while let Some((p, action)) = diff.next() {
+                        actions.push((entry(p), action));
+                    }
+                    let mut applied = version.data.clone();
+                    for ((k, v), action) in &actions {
+                        match action {
+                            Action::Announce => { applied.insert(k.clone(), v.clone()); }
+                            Action::Withdraw => { applied.remove(k); }
+                        }
+                    }
+                    if applied != data || u32::from(state.serial()) != serial_now {
+                        problems.push(("C13", "inexact", format!(
+                            "change set from serial {} does not lead to the \
+                             current data (serial {serial_now})", version.serial
+                        )));
+                    }
+                    if lag > 0 {
+                        let direct = routinator::payload::PayloadDelta::construct(
+                            &version.snapshot, &snapshot,
+                            Serial(serial_now.wrapping_sub(1))
+                        );
+                        let direct: Vec<((String, String), Action)> = match &direct {
+                            Some(delta) => delta.actions().map(|(p, a)| {
+                                (entry(p), a)
+                            }).collect(),
+                            None => Vec::new(),
+                        };
+                        if lag >= 2 { self.stats.probe("aspa-merged-diff-checked"); }
+                        if direct != actions {
+                            problems.push(("C12", "merge-differs", format!(
+                                "served change set {} -> {serial_now} \
+                                 ({:?}) differs from the direct change set \
+                                 ({:?})", version.serial,
+                                actions.iter().map(|x| format!("{:?} {} {}", x.1, x.0.0, x.0.1)).collect::<Vec<_>>(),
+                                direct.iter().map(|x| format!("{:?} {} {}", x.1, x.0.0, x.0.1)).collect::<Vec<_>>(),
+                            )));
+                        }
+                    }
+                }
+            }
+        }
+        if server.versions.len() > 14 { server.versions.remove(0); }
+        for (prop, class, msg) in problems {
+            self.violation(prop, class, step, msg);
+        }
+    }
+
+    /// C22 and C34: documents and scheduling of the server after a run.
+    fn check_server_documents(&mut self, step: usize, snapshot: &PayloadSnapshot) {
+        let Some(server) = self.server.as_ref() else { return };
+        // C22
+        let (status, body) = server.get("/api/v1/status");
+        let mut problems: Vec<(&'static str, String)> = Vec::new();
+        if status != 200 {
+            problems.push(("status-code", format!("/api/v1/status -> {status}")));
+        }
+        else if let Err(err) = serde_json::from_slice::<serde_json::Value>(&body) {
+            let text = String::from_utf8_lossy(&body);
+            let col = err.column().saturating_sub(30);
+            let line: String = text.lines().nth(err.line().saturating_sub(1))
+                .unwrap_or("").chars().skip(col).take(80).collect();
+            problems.push(("status-json", format!(
+                "/api/v1/status is not valid JSON: {err}; near {line:?}"
+            )));
+        }
+        let (status, body) = server.get("/metrics");
+        if status != 200 {
+            problems.push(("metrics-code", format!("/metrics -> {status}")));
+        }
+        else {
+            match std::str::from_utf8(&body) {
+                Ok(text) => {
+                    if let Err(err) = check_prometheus(text) {
+                        problems.push(("metrics-format", format!(
+                            "/metrics violates the exposition format: {err}"
+                        )));
+                    }
+                }
+                Err(_) => problems.push(("metrics-utf8",
+                    "/metrics is not UTF-8".into())),
+            }
+        }
+        // C34
+        let history = server.history.read();
+        let wait = history.refresh_wait().as_secs() as i64;
+        let refresh = self.cfg.refresh;
+        let floor = self.min_refresh.unwrap_or(refresh);
+        let ceil = refresh.max(self.min_refresh.unwrap_or(0));
+        drop(history);
+        if server.runs > 1 || true {
+            if wait < floor || wait > ceil {
+                problems.push(("C34-bounds", format!(
+                    "next run scheduled in {wait}s, outside [{floor}, {ceil}] \
+                     (refresh {refresh}, min-refresh {:?})", self.min_refresh
+                )));
+            }
+            if let (Some(min), Some(expiry)) = (self.min_refresh, snapshot.refresh()) {
+                let until = expiry.timestamp() - self.now;
+                if until < refresh {
+                    let want = until.max(min);
+                    if wait != want {
+                        problems.push(("C34-expiry", format!(
+                            "data expires in {until}s (before refresh \
+                             {refresh}s), min-refresh {min}s: next run \
+                             scheduled in {wait}s, expected {want}s"
+                        )));
+                    }
+                    self.stats.probe("expiry-before-refresh");
+                }
+            }
+        }
+        for (class, msg) in problems {
+            let prop = if class.starts_with("C34") { "C34" } else { "C22" };
+            self.violation(prop, class, step, msg);
+        }
     }
 
     /// C31: no request to a dubious host unless allowed; and the fetches
@@ -1636,6 +2192,7 @@ impl Sim {
         let base = self.scratch.join("cache").join("stored");
         let mut on_disk: BTreeMap<String, (Bytes, Bytes, Vec<(String, Bytes)>)>
             = BTreeMap::new();
+        let mut now_seen = BTreeMap::new();
         let mut stack = vec![base.join("rsync"), base.join("rrdp")];
         while let Some(dir) = stack.pop() {
             let Ok(read) = std::fs::read_dir(&dir) else { continue };
@@ -1684,11 +2241,33 @@ impl Sim {
                     }
                     else { key.clone() }
                 };
+                // C05: number and thisUpdate only ever go up while a
+                // point stays in the store.
+                let number = manifest.manifest_number.into_array().to_vec();
+                let this_update = manifest.this_update.timestamp();
+                if let Some((old_number, old_time, old_bytes)) =
+                    self.stored_seen.get(&key)
+                {
+                    if *old_bytes != manifest.manifest
+                        && !(number > *old_number && this_update > *old_time)
+                    {
+                        self.violation("C05", "rollback", step, format!(
+                            "stored manifest of {key} replaced by one that \
+                             is not newer: number {:?} -> {:?}, thisUpdate \
+                             {old_time} -> {this_update}",
+                            &old_number[16..], &number[16..]
+                        ));
+                    }
+                }
+                now_seen.insert(
+                    key.clone(), (number, this_update, manifest.manifest.clone())
+                );
                 on_disk.insert(
                     key, (manifest.manifest.clone(), manifest.crl.clone(), objects)
                 );
             }
         }
+        self.stored_seen = now_seen;
         // Model side, keyed the same way.
         let mut model_side = BTreeMap::new();
         for point in self.state.store.values() {
